@@ -12,11 +12,18 @@
    [self_ <> -1]: a node with an application (core), not a bare Hashgraph. *)
 From Coq Require Import ZArith List Bool Sorted.
 From V Require Import Model.ZMap Model.Quorum Model.HgImpl Model.PeerSetSpec
-  Proofs.BlockInv Proofs.PeerSetProofs Proofs.SigProofs.
+  Proofs.BlockInv Proofs.PeerSetProofs Proofs.SigProofs Proofs.TidyRR.
 Import ListNotations.
 Open Scope Z_scope.
 
+(* round-received increases strictly along the delivered blocks.  It used to be a named
+   hypothesis of the theorems below; it is now a theorem of every reachable state
+   (Proofs/RoundOrder.v, C02_rr_increasing) and has been discharged everywhere *)
 Definition rr_increasing (st : hg) : Prop := StronglySorted Z.lt (map b_rr (delivered st)).
+Theorem C09_rr_increasing_holds : forall self_ genesis oracle_ ops,
+  rr_increasing (hrun (init_hg self_ genesis oracle_) ops).
+Proof. exact reach_rr_increasing. Qed.
+Print Assumptions C09_rr_increasing_holds.
 
 (** recorded signatures *)
 
@@ -59,26 +66,27 @@ Print Assumptions C09_commit_signs_iff_member.
 
 (* for all histories and all payloads: the signer of every recorded signature is a member of a
    validator set of the node's table (the one in force for the block's round when recorded),
-   signers are pairwise distinct, and -- with round-received increasing along the delivered
-   blocks, so that by C10_no_retroactive later commits cannot have changed the set of an earlier
-   block's round -- the signer is in the set the FINAL table gives for the block's round *)
+   signers are pairwise distinct, and -- round-received increasing along the delivered blocks
+   (C02_rr_increasing), so that by C10_no_retroactive later commits cannot have changed the set
+   of an earlier block's round -- the signer is in the set the FINAL table gives for the block's
+   round *)
 Theorem C09_recorded_valid : forall self_ genesis oracle_ ops i b v o,
   self_ <> -1 ->
   zget i (blocks (hrun (init_hg self_ genesis oracle_) ops)) = Some b -> aget v (b_sigs b) = Some o ->
   o = b_bodyid b /\
   NoDup (map fst (b_sigs b)) /\
   (exists k ps, In (k, ps) (peersets (hrun (init_hg self_ genesis oracle_) ops)) /\ mem_key v (keys ps) = true) /\
-  (rr_increasing (hrun (init_hg self_ genesis oracle_) ops) ->
-   exists ps, get_peerset (hrun (init_hg self_ genesis oracle_) ops) (b_rr b) = Some ps /\ mem_key v (keys ps) = true).
-Proof.
-  exact (fun s g o ops i b v o' Hs Hb Hv =>
-    let I := reach_c09inv s g o ops Hs in
-    conj (b_valid _ (hrun_binv s g o ops) i b Hb v o' Hv)
-      (conj (s_nodup _ _ _ _ I i b Hb)
-        (conj (s_members_some _ _ _ _ I i b v o' Hb Hv)
-              (fun S => s_members _ _ _ _ I S i b v o' Hb Hv)))).
-Qed.
+  (exists ps, get_peerset (hrun (init_hg self_ genesis oracle_) ops) (b_rr b) = Some ps /\ mem_key v (keys ps) = true).
+Proof. exact recorded_valid. Qed.
 Print Assumptions C09_recorded_valid.
+
+(* the last conjunct on its own: the signer of every recorded signature is in the set the FINAL
+   peer-set table gives for the block's round-received *)
+Theorem C09_recorded_member_final : forall self_ genesis oracle_ ops i b v o, self_ <> -1 ->
+  zget i (blocks (hrun (init_hg self_ genesis oracle_) ops)) = Some b -> aget v (b_sigs b) = Some o ->
+  exists ps, get_peerset (hrun (init_hg self_ genesis oracle_) ops) (b_rr b) = Some ps /\ mem_key v (keys ps) = true.
+Proof. exact recorded_member_final. Qed.
+Print Assumptions C09_recorded_member_final.
 
 (** attribution *)
 
@@ -117,33 +125,28 @@ Print Assumptions C09_provenance.
 (* the anchor block is stored and carries more signatures than the TrustCount of a validator set
    of the table (the set of its round when the anchor was set / the signature added), hence from
    more than a third of that set's distinct validators -- the signers being distinct members
-   (C09_recorded_valid); with increasing round-received, the set is the one the final table
-   gives for the block's round *)
+   (C09_recorded_valid); and the same for the set the final table gives for the block's round *)
 Theorem C09_anchor_trusted : forall self_ genesis oracle_ ops a,
   self_ <> -1 -> anchor (hrun (init_hg self_ genesis oracle_) ops) = Some a ->
   exists b, zget a (blocks (hrun (init_hg self_ genesis oracle_) ops)) = Some b /\
     (exists k ps, In (k, ps) (peersets (hrun (init_hg self_ genesis oracle_) ops)) /\
                   trust_count ps < Z.of_nat (length (b_sigs b))) /\
-    (rr_increasing (hrun (init_hg self_ genesis oracle_) ops) ->
-     exists ps, get_peerset (hrun (init_hg self_ genesis oracle_) ops) (b_rr b) = Some ps /\
+    (exists ps, get_peerset (hrun (init_hg self_ genesis oracle_) ops) (b_rr b) = Some ps /\
                 trust_count ps < Z.of_nat (length (b_sigs b))).
-Proof. exact (fun s g o ops a Hs Ha => s_anchor _ _ _ _ (reach_c09inv s g o ops Hs) a Ha). Qed.
+Proof. exact anchor_trusted. Qed.
 Print Assumptions C09_anchor_trusted.
 
-(* the headline: with increasing round-received, the anchor block carries signatures over the
-   node's own body of it, by pairwise distinct members of the validator set that the table gives
-   for the block's round, and they are more than a third of that set *)
+(* the headline: the anchor block carries signatures over the node's own body of it, by pairwise
+   distinct members of the validator set that the table gives for the block's round, and they are
+   more than a third of that set *)
 Theorem C09_anchor_third_of_validators : forall self_ genesis oracle_ ops a,
-  self_ <> -1 -> rr_increasing (hrun (init_hg self_ genesis oracle_) ops) ->
-  anchor (hrun (init_hg self_ genesis oracle_) ops) = Some a ->
+  self_ <> -1 -> anchor (hrun (init_hg self_ genesis oracle_) ops) = Some a ->
   exists b ps, zget a (blocks (hrun (init_hg self_ genesis oracle_) ops)) = Some b /\
     get_peerset (hrun (init_hg self_ genesis oracle_) ops) (b_rr b) = Some ps /\
     NoDup (map fst (b_sigs b)) /\
     (forall v, In v (map fst (b_sigs b)) -> In v (keys ps) /\ aget v (b_sigs b) = Some (b_bodyid b)) /\
     3 * Z.of_nat (length (map fst (b_sigs b))) > ps_len ps.
-Proof.
-  exact (fun s g o ops a Hs S Ha => anchor_third g _ _ _ a (hrun_binv s g o ops) (reach_c09inv s g o ops Hs) S Ha).
-Qed.
+Proof. exact anchor_third_reach. Qed.
 Print Assumptions C09_anchor_third_of_validators.
 
 (* "> TrustCount" means more than a third of the distinct validators; a single signature
@@ -175,13 +178,8 @@ Theorem C09_signs_only_delivered : forall self_ genesis oracle_ ops s,
 Proof. exact (fun s g o ops sg Hs HI => s_self _ _ _ _ (reach_c09inv s g o ops Hs) sg HI). Qed.
 Print Assumptions C09_signs_only_delivered.
 
-(* FULL STATEMENTS not proved here (asserted nowhere): the unconditional "signer is in the set
-   the final table gives for the block's round", which is C09_recorded_valid's last conjunct
-   without the hypothesis; it follows once C02_rr_increasing_statement is proved. *)
-Definition C09_recorded_member_final_statement : Prop :=
-  forall self_ genesis oracle_ ops i b v o, self_ <> -1 ->
-    zget i (blocks (hrun (init_hg self_ genesis oracle_) ops)) = Some b -> aget v (b_sigs b) = Some o ->
-    exists ps, get_peerset (hrun (init_hg self_ genesis oracle_) ops) (b_rr b) = Some ps /\ mem_key v (keys ps) = true.
+(* No full statement of this file is left unproved: the former
+   C09_recorded_member_final_statement is the theorem C09_recorded_member_final above. *)
 
 (* non-vacuity: validators 0 (self) and 1; the events of validator 1 carry adversarial payloads:
    a signature over another body (99), one for a future block (index 3), a duplicate, and a
